@@ -121,41 +121,53 @@ def h_roundtrip(ds, forest, outs, rnd):
 
 
 def h_regraft(ds, forest, outs, rnd):
-    """Reach the tree by pruning a subtree from a different place and grafting it where it belongs."""
-    if not forest:
+    """Reach the tree by pruning a subtree from a different place and grafting it where it belongs
+    (the prune-regraft move's edit sequence): any clone's subtree, parked under any other clone or at
+    the top level, including parkings that leave an internal clone childless after the prune."""
+    import copy as _c
+
+    if forest_size(forest) < 2:
         return None
-    # pick a clone with a parent; build the tree with that subtree attached at the top level instead
     paths = []
 
     def walk(lst, path):
         for i, node in enumerate(lst):
-            if path:
-                paths.append(path + [i])
+            paths.append(path + [i])
             walk(node[1], path + [i])
 
     walk(forest, [])
-    if not paths:
-        return None
-    path = rnd.choice([p for p in paths])
-    import copy as _c
-
+    path = rnd.choice(paths)
     f2 = _c.deepcopy(forest)
-    lst = f2
+    lst, parent = f2, None
     for i in path[:-1]:
         parent = lst[i]
         lst = lst[i][1]
     sub = lst.pop(path[-1])
-    f2.append(sub)
+    # candidate parking places: every remaining clone, or the top level (if that differs from home)
+    places = []
+
+    def collect(l):
+        for node in l:
+            if node is not parent:
+                places.append(node)
+            collect(node[1])
+
+    collect(f2)
+    if parent is not None:
+        places.append(None)
+    if not places:
+        return None
+    park = rnd.choice(places)
+    (f2 if park is None else park[1]).append(sub)
     t = build_tree(ds.real, canon_forest(f2), outs)
     labels = t.labels
-    sub_root = labels[min(sub[0])] if sub[0] else None
-    par_name = labels[min(parent[0])] if parent[0] else None
-    if sub_root is None or par_name is None:
+    if not sub[0] or (parent is not None and not parent[0]):
         return None
-    st = t.get_subtree(sub_root)
+    st = t.get_subtree(labels[min(sub[0])])
     t.remove_subtree(st)
-    t.add_subtree(st, parent=par_name)
-    t.update()
+    t.add_subtree(st, parent=None if parent is None else labels[min(parent[0])])
+    if rnd.random() < 0.5:
+        t.update()
     return t
 
 
